@@ -296,6 +296,7 @@ def wl_quotient(ctx, rng, case):
     case.desc = {"kind": "QuotientFilter", "quotient": q, "auto_expand": auto}
     ctx.observe("structures", "QuotientFilter")
     removes = 0
+    others = []  # (filter, its set): filters that took part in a merge must keep THEIR counter consistent while the other one evolves
     for step in range(rng.randint(5, 50)):
         r = rng.random()
         if r < 0.55:
@@ -322,16 +323,30 @@ def wl_quotient(ctx, rng, case):
             except QuotientFilterError:
                 pass
         else:
-            other = P.QuotientFilter(quotient=3, auto_expand=True)
+            other = P.QuotientFilter(quotient=rng.choice([3, f.quotient, f.quotient]), auto_expand=True)
             S2 = set(rng.sample(U, rng.randint(0, 4)))
             for h in S2:
                 other.add_alt(h)
-            case.op("merge", len(S2))
+            case.op("merge", len(S2), "into_empty" if not S else "")
             try:
-                f.merge(other)
-                S |= S2
+                if rng.random() < 0.5:
+                    f.merge(other)
+                    S |= S2
+                    others.append((other, set(S2)))
+                else:
+                    # merge the history's filter INTO the fresh one and continue with that one
+                    other.merge(f)
+                    others.append((f, set(S)))
+                    f, S = other, S | S2
             except QuotientFilterError:
                 S = set(f.get_hashes())
+            ctx.count("quotient.merges")
+        for o, So in others[-3:]:
+            got = o.get_hashes()
+            ctx.check(o.elements_added == len(got) == len(So) and sorted(got) == sorted(So),
+                      f"a quotient filter that took part in an earlier merge no longer matches its own contents after step {step} (shared storage?)",
+                      elements_added=o.elements_added, stored=len(got), expected=len(So))
+            ctx.count("aliasing_checks")
         stored = f.get_hashes()
         where = f"after step {step} ({case.ops[-1]})"
         ctx.check(f.elements_added == len(stored), f"quotient filter elements_added is not the number of stored hashes {where}", got=f.elements_added, want=len(stored))
@@ -362,5 +377,5 @@ PROP = Prop(
                  "a completely set array (documented sentinel -1) is outside the formula and skipped",
                  "quotient-filter histories stop before entering the region of the known finding K1 (listed under C04)"],
     required=["counter_checks", "statistics_checks", "set_operation_count_checks", "ondisk_reopens", "joins", "cuckoo.decisions_taken", "cuckoo.capacity_changes",
-              "cuckoo.reloads", "quotient.histories_with_removals"],
+              "cuckoo.reloads", "quotient.histories_with_removals", "quotient.merges", "aliasing_checks"],
 )
